@@ -12,6 +12,7 @@ import (
 	"github.com/openfga/openfga/internal/condition/eval"
 	"github.com/openfga/openfga/internal/iterator"
 	"github.com/openfga/openfga/internal/modelgraph"
+	"github.com/openfga/openfga/pkg/tuple"
 )
 
 func evaluateCondition(ctx context.Context, model *modelgraph.AuthorizationModelGraph, conditions []string, t *openfgav1.TupleKey, reqCtx *structpb.Struct) (bool, error) {
@@ -26,6 +27,15 @@ func evaluateCondition(ctx context.Context, model *modelgraph.AuthorizationModel
 func BuildConditionTupleKeyFilter(ctx context.Context, model *modelgraph.AuthorizationModelGraph, conditions []string, reqCtx *structpb.Struct) iterator.FilterFunc[*openfgav1.TupleKey] {
 	return func(t *openfgav1.TupleKey) (bool, error) {
 		return evaluateCondition(ctx, model, conditions, t, reqCtx)
+	}
+}
+
+// BuildTuplesetObjectFilter keeps the tuples whose user is an object. A tupleset relation only admits objects, but it is
+// read by type prefix, which also matches a userset or wildcard tuple left over from an earlier model: such a tuple is
+// not valid for the current model and must not be followed.
+func BuildTuplesetObjectFilter() iterator.FilterFunc[*openfgav1.TupleKey] {
+	return func(tk *openfgav1.TupleKey) (bool, error) {
+		return tuple.GetUserTypeFromUser(tk.GetUser()) == tuple.User, nil
 	}
 }
 
